@@ -372,7 +372,7 @@ macro_rules! by_name {
     ($($name:ident: $ft:literal, $vk:literal, $n:literal, $p:literal;)*) => {
         $(
             #[kani::proof]
-            #[kani::unwind(3)]
+            #[kani::unwind(2)]
             #[kani::stub(crate::scheme::Scheme::get_field, crate::scheme::Scheme::get_field__contract)]
             #[kani::stub(<crate::types::ExpectedTypeList as std::convert::From<crate::types::Type>>::from, crate::types::verif_kani::c08::expected_type_list_from_type__contract)]
             fn $name() {
